@@ -151,11 +151,17 @@ func init() {
 	registerIntrinsic("math.NaN", func(i *interpreter, fr *frame, fn *ssa.Function, a []value) value { return math.NaN() })
 	registerIntrinsic("math.IsNaN", func(i *interpreter, fr *frame, fn *ssa.Function, a []value) value {
 		if s, ok := a[0].(symFloat); ok {
-			return mkBool(&Term{S: "(fp.isNaN " + s.t.S + ")", Sort: SBool})
+			if s.num != nil {
+				return false // exact rationals are finite
+			}
+			return mkBool(&Term{S: "(fp.isNaN " + fpTerm(s).S + ")", Sort: SBool})
 		}
 		return math.IsNaN(a[0].(float64))
 	})
 	registerIntrinsic("math.IsInf", func(i *interpreter, fr *frame, fn *ssa.Function, a []value) value {
+		if s, ok := a[0].(symFloat); ok && s.num != nil {
+			return false
+		}
 		if s, ok := a[0].(symFloat); ok {
 			sign := asInt64(a[1])
 			inf := "(fp.isInfinite " + s.t.S + ")"
@@ -175,7 +181,7 @@ func init() {
 				if smt == "" {
 					panic(unsupported("%s on a symbolic float", name))
 				}
-				return symFloat{t: &Term{S: "(" + smt + " " + s.t.S + ")", Sort: SFP}}
+				return symFloat{t: &Term{S: "(" + smt + " " + fpTerm(s).S + ")", Sort: SFP}}
 			}
 			return host(a[0].(float64))
 		})
@@ -208,6 +214,22 @@ func init() {
 					return math.Max(a[0].(float64), a[1].(float64))
 				}
 				return math.Min(a[0].(float64), a[1].(float64))
+			}
+			// exact rational view (finite values): max/min by integer comparison
+			op := tokenGTR
+			if !isMax {
+				op = tokenLSS
+			}
+			if c, ok := ratBinop(op, a[0], a[1]); ok {
+				if cb, isBool := c.(bool); isBool {
+					if cb {
+						return a[0]
+					}
+					return a[1]
+				}
+				if v, ok := i.iteValue(boolTerm(c), a[0], a[1]); ok {
+					return v
+				}
 			}
 			x, y := fpTerm(a[0]).S, fpTerm(a[1]).S
 			nan := "(or (fp.isNaN " + x + ") (fp.isNaN " + y + "))"
